@@ -89,10 +89,15 @@ def step (st : PState) : Option PState :=
   match fetchCommand st with
   | none => none
   | some (cmd, r) =>
+    -- a written moveto starts a new subpath: a later closepath returns to its first point (further
+    -- coordinate pairs after the moveto are implicit linetos and do not move the start)
+    let newSub := (cmd == 'M' || cmd == 'm') &&
+      (match st.rest with | c :: _ => commandChars.contains c | [] => false)
     let st := { st with command := some cmd, rest := r }
-    let abs1 := fun (s : Str) => (readCoord s).map fun (xy, r') => st.update xy r'
+    let mark := fun (s : PState) => if newSub then { s with startPos := s.position } else s
+    let abs1 := fun (s : Str) => (readCoord s).map fun (xy, r') => mark (st.update xy r')
     let rel1 := fun (s : Str) => (readCoord s).map fun (d, r') =>
-      st.update (st.cur.1 + d.1, st.cur.2 + d.2) r'
+      mark (st.update (st.cur.1 + d.1, st.cur.2 + d.2) r')
     let skipCoords := fun (n : Nat) (s : Str) =>
       (List.range n).foldl (fun acc _ => acc.bind fun s' => (readCoord s').map (·.2)) (some s)
     let skipNums := fun (n : Nat) (s : Str) =>
